@@ -144,6 +144,16 @@ def lookup : Trie → Nibs → Option Bytes
       | i :: rest => lookup (cs i) rest
     else none
 
+/-- Canonical form: every branch has two children, or a value and a child (no empty branch, no
+    branch that should have been merged into its only child).  Children are 16 slots and nibbles
+    are `< 16` by construction. -/
+def Canon : Trie → Prop
+  | nil => True
+  | leaf _ _ => True
+  | branch _ v cs =>
+    (∀ i, Canon (cs i)) ∧
+    ((∃ i j, i ≠ j ∧ cs i ≠ nil ∧ cs j ≠ nil) ∨ (v.isSome = true ∧ ∃ i, cs i ≠ nil))
+
 end Trie
 
 /-! ### canonical trie of a finite map -/
